@@ -458,6 +458,20 @@ def run_history(name: str, seed: int):
             return f"history-{name}-raises", f"{name} raises {err_name(e)} after the call history {trace}: {str(e)[:120]}", trace
         ob = bits(out)
         if ob.shape != exp.shape or (ob != exp).any():
+            try:                                  # is it the history, or is a single fresh call on copies wrong as well?
+                with torch.no_grad():
+                    f2 = make()
+                    if getattr(f2, "module", None) is not None:
+                        f2.module.train(f.module.training)
+                    o2 = bits(f2(k.clone(), m.clone(), {a: v.clone() for a, v in aux.items()}))
+                fresh_wrong = o2.shape != exp.shape or bool((o2 != exp).any())
+            except Exception:  # noqa: BLE001
+                fresh_wrong = True
+            if fresh_wrong:
+                return (f"history-{name}-wrong-result",
+                        f"{name}: k-space {kshape}, mask {mdn}{mshape}, engine model training={B().toy_engine().model.training}: the result is "
+                        f"not where(mask == 0, +0, ·) composed with the unmasked operators (also on a fresh call with copies of the inputs)",
+                        trace)
             return (f"history-{name}-stale-state",
                     f"{name}: after the call history {trace} the result is not the masked quantity of the CURRENT k-space and mask "
                     f"(state kept between calls — e.g. a cache keyed by tensor object, address or version counter)", trace)
@@ -740,7 +754,7 @@ def run_ssl_iteration(kind, train, is_ssl, via_image, kshape, acquired, inp, tgt
 
     def rec_backward(data, dim=None, **kw):
         seen.append(data.detach().clone())
-        return T.ifft2(data, dim=dim)
+        return torch.zeros_like(data)
     eng.backward_operator = rec_backward
     zero = torch.tensor([0.0])
     data = {"masked_kspace": torch.where(acquired == 0, zero, full), "sampling_mask": acquired.clone(),
@@ -825,7 +839,7 @@ def oracle_ssl(ctx: Ctx, deep: bool):
 
 
 # --------------------------------------------------------------------------------------------------
-# multiplicative masking sites of the data pipeline: `kspace * acs_mask + 0.0`
+# the ACS sites of the data pipeline (product form `kspace * acs_mask + 0.0` until the phase-3 repair, now apply_mask)
 def acs_kspace(which: str, k: torch.Tensor, acs: torch.Tensor, sigma=None):
     """the k-space that EstimateSensitivityMapModule.estimate_acs_image / EstimateBodyCoilImage hand to the backward operator"""
     from direct.data import mri_transforms as MT
@@ -872,7 +886,7 @@ def check_acs_site(which: str, seed: int, with_inf: bool):
         nan = bool(a2.isnan().any())
         return (f"acs-mul-mask:{'inf-outside-acs-gives-nan' if nan else 'depends-on-values-outside-acs'}",
                 f"{'EstimateSensitivityMapModule.estimate_acs_image' if which == 'sensitivity' else 'EstimateBodyCoilImage'}: the ACS k-space "
-                f"(`kspace * acs_mask + 0.0`) {'is NaN' if nan else 'changes'} when values OUTSIDE the ACS mask change "
+                f"{'is NaN' if nan else 'changes'} when values OUTSIDE the ACS mask change "
                 f"({'an infinite entry times 0' if nan else 'not where(acs_mask == 0, +0, kspace)'})",
                 {"kspace": rep_tensor(k2), "acs_mask": rep_tensor(acs)})
     return None
@@ -891,3 +905,155 @@ def oracle_acs(ctx: Ctx, deep: bool):
                     r = ("acs-site-raises", f"{which}: {err_name(e)}: {str(e)[:160]}", {})
                 if r:
                     yield Violation(r[0], r[1], dict(r[2], op="x_acs", which=which, seed=seed, with_inf=with_inf))
+
+
+# --------------------------------------------------------------------------------------------------
+def replay(rep: dict) -> bool:
+    """True = the recorded input still violates the property"""
+    import direct.data.transforms as T
+
+    op = rep["op"]
+    try:
+        if op == "x_apply_mask":
+            k0, m0 = from_rep(rep["kspace"]), from_rep(rep["mask"])
+            out = mask_vias()[rep["via"]](k0.clone(), m0.clone())
+            if check_masked(out, bits(k0), list(k0.shape), k0.dtype, nonzero(m0), rep["via"]) is not None:
+                return True
+            k = k0.clone()
+            out = mask_vias()[rep["via"]](k, m0.clone())
+            if out.numel() and out.dtype.is_floating_point:
+                out.detach().mul_(2).add_(1)
+            return bool((bits(k) != bits(k0)).any())
+        if op == "x_retmask":
+            k0, m0 = from_rep(rep["kspace"]), from_rep(rep["mask"])
+            m = m0.clone()
+            _, mret = T.apply_mask(k0.clone(), m)
+            return bool(mret.dtype != m0.dtype or mret.shape != m0.shape or (bits(mret) != bits(m0)).any() or (bits(m) != bits(m0)).any())
+        if op == "x_apply_padding":
+            from direct.data.mri_transforms import ApplyZeroPadding
+            d0, p0 = from_rep(rep["data"]), from_rep(rep["padding"])
+            via = rep["via"]
+            if via == "apply_padding":
+                out = T.apply_padding(d0.clone(), p0.clone())
+            elif via == "ApplyZeroPadding":
+                out = ApplyZeroPadding()({"kspace": d0.clone(), "padding": p0.clone()})["kspace"]
+            else:
+                out = ApplyZeroPadding(kspace_key="masked_kspace", padding_key="pad2")(
+                    {"masked_kspace": d0.clone(), "pad2": p0.clone(), "kspace": d0.clone(), "padding": torch.ones_like(p0)})["masked_kspace"]
+            isone = p0.to(torch.float64).numpy() == 1 if p0.dtype != torch.bool else p0.numpy()
+            oshape = np.broadcast_shapes(tuple(p0.shape), tuple(d0.shape))
+            exp = np.where(np.broadcast_to(isone, oshape), 0, np.broadcast_to(bits(d0), oshape))
+            return bool(out.dtype != d0.dtype or bits(out).shape != exp.shape or (bits(out) != exp).any())
+        if op == "x_history":
+            return run_history(rep["subject"], rep["seed"]) is not None
+        if op == "x_mask_func":
+            fac = dict(mask_func_factories())[rep["gen"]]
+            k0 = from_rep(rep["kspace"])
+            seed = tuple(rep["seed"]) if rep.get("seed_is_tuple") else rep["seed"]
+            rec = RecordingMaskFunc(fac())
+            out, mret = T.apply_mask(k0.clone(), rec, seed)
+            ref = fac()(shape=tuple(k0.shape[1:]), seed=seed)
+            a, kw = rec.calls[0]
+            kw = dict(kw, **dict(zip(("shape", "seed"), a)))
+            return bool(len(rec.calls) != 1 or [int(s) for s in kw["shape"]] != list(k0.shape[1:]) or not _seed_eq(kw.get("seed"), seed)
+                        or mret.shape != ref.shape or not torch.equal(mret, ref)
+                        or check_masked(out, bits(k0), list(k0.shape), k0.dtype, nonzero(ref), "x") is not None)
+        if op == "x_create_mask":
+            fac = dict(mask_func_factories())[rep["gen"]]
+            k0 = from_rep(rep["kspace"])
+            sp = list(k0.shape)[1:-1]
+            shape_opt = {"none": None, "full": tuple(sp), "with-None": tuple(None if j == len(sp) - 1 else n for j, n in enumerate(sp)),
+                         "all-None": tuple(None for _ in sp)}[rep["shape_opt"]]
+            pad0 = None if rep["padding"] is None else from_rep(rep["padding"])
+            return check_create_and_apply(fac, k0, shape_opt, rep["use_seed"], rep["return_acs"], pad0, rep["filename"]) is not None
+        if op == "x_ssl":
+            return check_ssl_engine(rep["seed"]) is not None
+        if op == "x_acs":
+            return check_acs_site(rep["which"], rep["seed"], rep["with_inf"]) is not None
+    except Exception:  # noqa: BLE001
+        return True
+    return True
+
+
+# --------------------------------------------------------------------------------------------------
+# scripted call histories for the correspondence op `maskhist` (Lean: `maskHistory` = `Memo.run` with the complete key)
+def gen_history_script(rng):
+    """-> (kshape, mshape, mask dtype name, script, snapshots[(mask values, k-space tensor)])"""
+    b, c, h, w = rng.choice([1, 2]), rng.choice([1, 2, 3, rng.choice(LADDER)]), rng.choice([1, 2, 3]), rng.choice([2, 3])
+    kshape = [b, c, h, w, 2]
+    mshape = rng.choice([[b, 1, h, w, 1], [1, 1, h, w, 1], [1, 1, 1, w, 1]])
+    mdn = rng.choice(["bool", "uint8", "int64"])
+    nk, nm = int(np.prod(kshape)), int(np.prod(mshape))
+    newk = lambda: B().gen_kspace(rng, kshape).reshape(-1).tolist()  # noqa: E731
+    newm = lambda: [rng.choice([0, 1]) for _ in range(nm)]  # noqa: E731
+    k, m = newk(), newm()
+    script, snaps = [("new", k, m)], [(list(m), list(k))]
+    for _ in range(rng.randint(2, 5)):
+        step = rng.choice(["same-k-new-mask", "same-mask-new-k", "write-k", "write-mask", "realloc-k", "same-all", "new"])
+        if step == "same-k-new-mask":
+            m = newm()
+            script.append((step, m))
+        elif step in ("same-mask-new-k", "realloc-k"):
+            k = newk()
+            script.append((step, k))
+        elif step == "write-k":
+            idx = sorted(set(rng.randrange(nk) for _ in range(max(1, nk // 3))))
+            vals = [rng.choice([-0.0, float("inf"), float("-inf"), 5.0, -7.0, 0.0, 123.0]) for _ in idx]
+            k = list(k)
+            for j, v in zip(idx, vals):
+                k[j] = v
+            script.append((step, rng.choice(WRITE_MODES), idx, vals))
+        elif step == "write-mask":
+            idx = sorted(set(rng.randrange(nm) for _ in range(max(1, nm // 2))))
+            m = list(m)
+            for j in idx:
+                m[j] = 1 - m[j]
+            script.append((step, rng.choice(WRITE_MODES), idx, [m[j] for j in idx]))
+        elif step == "new":
+            k, m = newk(), newm()
+            script.append((step, k, m))
+        else:
+            script.append((step,))
+        snaps.append((list(m), list(k)))
+    return kshape, mshape, mdn, script, snaps
+
+
+def run_history_script(subject: str, kshape, mshape, mdn, script):
+    """replay the script on real tensor objects against ONE persistent callable; -> list of outputs"""
+    f = history_subjects()[subject][0]()
+    dt = M_DTYPES[mdn]
+    mk = lambda v: torch.tensor(v, dtype=torch.int64).reshape(mshape).to(dt)  # noqa: E731
+    kk = lambda v: torch.tensor(v, dtype=torch.float32).reshape(kshape)  # noqa: E731
+    k = m = None
+    outs = []
+
+    def write(t, mode, idx, vals):
+        if mode == "inplace":
+            flat = t.reshape(-1)
+            for j, v in zip(idx, vals):
+                flat[j] = v
+        elif mode == "numpy":
+            a = t.numpy().reshape(-1)
+            for j, v in zip(idx, vals):
+                a[j] = v
+        else:
+            d = t.data.reshape(-1)
+            for j, v in zip(idx, vals):
+                d[j] = v
+    for st in script:
+        if st[0] == "new":
+            k, m = kk(st[1]), mk(st[2])
+        elif st[0] == "same-k-new-mask":
+            m = mk(st[1])
+        elif st[0] == "same-mask-new-k":
+            k = kk(st[1])
+        elif st[0] == "realloc-k":
+            k = None
+            k = kk(st[1])
+        elif st[0] == "write-k":
+            write(k, *st[1:])
+        elif st[0] == "write-mask":
+            write(m, *st[1:])
+        with torch.no_grad():
+            outs.append(f(k, m, {}).clone())
+    return outs
